@@ -13,7 +13,7 @@ EXPLANATION = ("Protocol shape decided on all paths: (R07.1) cancel_stream clear
                "is false; (R07.4) end_stream cancels its target on EVERY path (no answer is produced without the cancel), then re-wakes the target on each iteration of a loop "
                "that is left only when the stream's id is vacant again or under `timeout != ZERO`, and the cancel is never repeated from inside that loop (a vacant id may already belong to "
                "a stream nobody targeted); (R07.5) the id becomes reusable on drop: Drop for MutinyStream -> "
-               "drop_resources -> report_stream_dropped -> vacant FIFO, for all 11 channels; nothing but the addressed flag is written by a cancel.")
+               "drop_resources -> report_stream_dropped -> vacant FIFO, for all 11 channels; nothing but the addressed flag is written by a cancel. Every channel's cancel_all_streams forwards to the manager's sweep.")
 ASSUMPTIONS = ["executors honour the Waker contract; a spurious will_wake answer of a foreign waker is outside the statement"]
 
 SM, STREAM = R.SM, R.STREAM
@@ -123,4 +123,8 @@ def check(ctx):
     dr = [(b, c) for (b, c) in body.calls if c.get("fname") == "drop_resources"]
     ok = len(dr) == 1 and util.on_every_return_path(body, dr[0][0]) and "stream_id" in show(dg.expr(dr[0][1]["args"][1]))
     ctx.ob("R07.5", f"{k}|drop-gives-the-id-back", ok, f"{body.f['file']}:{body.f['line']}", "dropping a stream calls drop_resources(its own id) on every path")
+    # every channel's cancel_all_streams is the manager's sweep
+    import delegation
+    for name, path in R.CHANNELS.items():
+        delegation.thin(ctx, "R07.2", f"{path} as {R.T_COMMON}::cancel_all_streams", "cancel_all_streams", "the channel-level cancel is the streams manager's sweep over every live stream")
     ctx.floor("R07.1", 4); ctx.floor("R07.2", 4); ctx.floor("R07.3", 8); ctx.floor("R07.4", 5); ctx.floor("R07.5", 12)
